@@ -28,7 +28,7 @@ package lexer
 //@ ensures [keyword] s.tokens[old(len(s.tokens))].Type == keywordType(text(s.source, s.start, s.current))
 //@ ensures [silent] utils.HadError == old(utils.HadError) && stderrN == old(stderrN)
 
-//@ func (s *Scanner) number [C09,C10,C08]
+//@ func (s *Scanner) number [C09,C10,C08,C18]
 //@ requires [scanner] s != nil && 0 <= s.start && s.start < s.current && s.current <= len(s.source)
 //@ requires [run] digitsEnd(s.source, s.start) == digitsEnd(s.source, s.current)
 //@ let d = digitsEnd(s.source, old(s.start))
